@@ -45,14 +45,14 @@ macro_rules
 
 theorem mem_addTimed {c : Conn} {fn : TFun} {p : Nat} {u : Bool} {t : Timed}
     (hm : t ∈ (addTimed c fn p u).timed) :
-    t ∈ c.timed ∨ (t.fn = fn ∧ t.uid = c.nextUid ∧ c.timed.any (fun t => t.fn = fn) = false) := by
+    t ∈ c.timed ∨ (t.fn = fn ∧ t.uid = c.nextUid ∧ t.user = u ∧ c.timed.any (fun t => t.fn = fn) = false) := by
   unfold addTimed at hm
   split at hm
   · exact .inl hm
   · rename_i hn
     simp only [List.mem_cons] at hm
     rcases hm with hm | hm
-    · exact .inr (by subst hm; exact ⟨rfl, rfl, by simpa using hn⟩)
+    · exact .inr (by subst hm; exact ⟨rfl, rfl, rfl, by simpa using hn⟩)
     · exact .inl hm
 
 @[simp] theorem delTimed_frame (c : Conn) (fn : TFun) :
